@@ -34,7 +34,7 @@ type opPeer struct {
 	known []int  // peers it knows (ranks)
 	val   string // value record it holds: "-" none, "r<n>" valid rank n, "bad" invalid, "mis" other key, "nil" empty value
 	provs []int  // providers it names
-	provA map[int]bool
+	provA []bool // ... with an address?
 }
 
 // two RSA identities (peer ids that do not inline their key), generated once per process
@@ -143,9 +143,9 @@ func (o *opRun) answer(pk *parked, rank int) parkedResult {
 			m.Record = &recpb.Record{Key: req.GetKey(), Value: valBytes(sp.val)}
 		}
 	case pb.Message_GET_PROVIDERS:
-		for _, pr := range sp.provs {
+		for i, pr := range sp.provs {
 			p := &pb.Message_Peer{Id: []byte(o.w.peerOf(pr))}
-			if sp.provA[pr] {
+			if sp.provA[i] {
 				p.Addrs = [][]byte{vAddr(pr+1, 8, false).Bytes()}
 			}
 			m.ProviderPeers = append(m.ProviderPeers, p)
@@ -204,6 +204,7 @@ type opResult struct {
 	err      error
 	vals     []string // values streamed / returned
 	provs    []string // providers streamed / returned: "<rank>/<naddrs>"
+	pseq     []string // the same in the order they were yielded
 	peers    []int
 	closed   bool // result channel closed (true when the op has no channel)
 }
@@ -259,6 +260,9 @@ func runOp(c *vu.Case) {
 	}
 	w := newWorldIDs(n, o.key, special, opts...)
 	o.w = w
+	// the order of the providers of one answer does not matter for any property: keep the wire order so that the
+	// model can replay it (the real code shuffles with math/rand)
+	w.d.shuffle = func(int, func(int, int)) {}
 	if a["addrs"] != "-" && a["addrs"] != "" {
 		var addrs []ma.Multiaddr
 		for i := range splitNonEmpty(a["addrs"], ",") {
@@ -268,7 +272,7 @@ func runOp(c *vu.Case) {
 	}
 	for _, t := range splitNonEmpty(a["peers"], "|") {
 		p := strings.Split(t, ":")
-		sp := opPeer{beh: p[1][0], known: parseInts(p[2], "."), val: "-", provA: map[int]bool{}}
+		sp := opPeer{beh: p[1][0], known: parseInts(p[2], "."), val: "-"}
 		if len(p) > 3 {
 			sp.val = p[3]
 		}
@@ -276,9 +280,7 @@ func runOp(c *vu.Case) {
 			for _, x := range splitNonEmpty(p[4], ".") {
 				r := atoi(strings.TrimSuffix(x, "+"))
 				sp.provs = append(sp.provs, r)
-				if strings.HasSuffix(x, "+") {
-					sp.provA[r] = true
-				}
+				sp.provA = append(sp.provA, strings.HasSuffix(x, "+"))
 			}
 		}
 		o.peers[atoi(p[0])] = sp
@@ -374,10 +376,12 @@ func runOp(c *vu.Case) {
 			for _, p := range ps {
 				res.provs = append(res.provs, fmt.Sprintf("%d/%d", w.rankOf(p.ID), len(p.Addrs)))
 			}
+			res.pseq = append([]string(nil), res.provs...)
 		case "findprovidersasync":
 			res.closed = false
 			for p := range w.d.FindProvidersAsync(ctx, keyCid, atoi(a["count"])) {
 				res.provs = append(res.provs, fmt.Sprintf("%d/%d", w.rankOf(p.ID), len(p.Addrs)))
+				res.pseq = append(res.pseq, fmt.Sprintf("%d/%d", w.rankOf(p.ID), len(p.Addrs)))
 			}
 			res.closed = true
 		case "putvalue":
@@ -483,8 +487,8 @@ func runOp(c *vu.Case) {
 			// bubble end in a deadlock report, which execOp records
 			leak := 0
 			sort.Strings(res.provs)
-			out = fmt.Sprintf("returned=%d closed=%d leak=%d err=%s vals=[%s] provs=[%s] peers=%s sent=[%s]", b(res.returned), b(res.closed),
-				leak, errClassOp(res.err), strings.Join(res.vals, ","), strings.Join(res.provs, ","), intList(res.peers), strings.Join(o.sentLog, ","))
+			out = fmt.Sprintf("returned=%d closed=%d leak=%d err=%s vals=[%s] provs=[%s] pseq=[%s] peers=%s sent=[%s]", b(res.returned), b(res.closed),
+				leak, errClassOp(res.err), strings.Join(res.vals, ","), strings.Join(res.provs, ","), strings.Join(res.pseq, ","), intList(res.peers), strings.Join(o.sentLog, ","))
 		}
 		c.Out = append(c.Out, out)
 	}
@@ -661,6 +665,14 @@ func TestVerifC04(t *testing.T) {
 			if strings.Contains(c.In[0], ":r") && (strings.Contains(c.In[0], ":bad") || strings.Contains(c.In[0], ":mis") || strings.Contains(c.In[0], ":nil")) {
 				c.Tag("nontrivial")
 			}
+			return true
+		}, Exec: execOp})
+}
+
+func TestVerifC08(t *testing.T) {
+	vu.Run(t, vu.Config{Prop: "C08", QuickN: 1500, ThoroughN: 40000,
+		Gen: func(r *vu.RNG, c *vu.Case) bool {
+			genOpCase(r, c, []string{"findproviders", "findprovidersasync", "findprovidersasync"})
 			return true
 		}, Exec: execOp})
 }
